@@ -1199,6 +1199,22 @@ def estimate_bits_oracle(case, ans):
     return None
 
 
+def nonfundamental_poly_cases(rng, tier):
+    """NON-FUNDAMENTAL discriminants with an ODD conductor, D = f^2 D0 (D0 fundamental, f | 3*5*7*11*13; D odd or D/4 = 2, 3 mod 4,
+    the shapes classgroup() keeps as they are), through the real sieve one polynomial at a time (cg_poly): the conductor list
+    of the real run is compared with its definition, no sieved relation may contain an odd conductor prime (the rejection of
+    sieve_block_poly; theorem relation_genuine_conductor), every relation line is re-checked by form arithmetic, the accepted
+    relations are replayed by the model WITH the conductor list, and candidates the model must reject are added to the replay."""
+    n = 6 if tier == "quick" else 30
+    for i in range(n):
+        f = (3, 5, 7, 15, 11, 21, 13, 35)[i % 8]
+        bits = (10, 16, 24, 30, 36, 44)[i % 6] if tier == "quick" else rng.choice([8, 12, 16, 24, 30, 36, 44, 56, 64])
+        D0 = random_fundamental(rng, bits, [1, 5, 8, 12][i % 4])
+        D = f * f * D0
+        first = 0 if (-D).bit_length() <= 32 else rng.randrange(0, 12)
+        yield Case(f"cg_poly {D} {first} 1 25", k=False, timeout=120, tag=f"nonfund/f={f}")
+
+
 def cases(tier, rng, extended=False):
     quick = tier == "quick"
     scale = 1 if quick else 6
@@ -1209,6 +1225,7 @@ def cases(tier, rng, extended=False):
     table_upto(X)
     yield from boundary_cases(_fork(rng, "C18-boundary"), tier)
     yield from estimate_boundary_cases(_fork(rng, "C18-estimate-boundary"), tier)
+    yield from nonfundamental_poly_cases(_fork(rng, "C18-nonfundamental"), tier)
     if not extended:
         yield from ymcls_cases(tier, rng)
     yield from legendre_cases(_fork(rng, "C18-legendre"), tier)
@@ -1734,6 +1751,17 @@ def oracle(case, ans):
     if op == "cg_poly":
         tr = parse_poly(ans)
         ents = []
+        # conductor list of the real run = factor-base primes with stored root 0 whose square divides the (reduced) discriminant
+        dred = D // 4 if D % 4 == 0 else D
+        want_cond = [q for q, r in tr["fb"] if r == 0 and dred % (q * q) == 0]
+        if sorted(tr["cond"]) != want_cond:
+            return f"D = {D}: conductor primes {tr['cond']}, the factor-base primes p with p^2 | D are {want_cond}"
+        oddc = set(q for q in want_cond if q != 2)
+        for pol in tr["polys"]:
+            for fs, l1, l2 in pol["rels"]:
+                hit = [q for q, e in list(fs) + [x for x in (l1, l2) if x] if q in oddc and e != 0]
+                if hit:
+                    return f"D = {D}: a sieved relation contains the conductor prime {hit[0]}: {show_rel(fs, l1, l2)}"
         for pol in tr["polys"]:
             disc = pol["b"] ** 2 - 4 * pol["a"] * pol["c"] if pol["type"] == 2 else 4 * (pol["b"] ** 2 - pol["a"] * pol["c"])
             if disc != D:
@@ -2145,6 +2173,29 @@ def followup(case, ans):
             used.update(facs)
             items.append(f"{x}:{'+'.join(map(str, facs)) or '-'}:{lp}:{lq}")
             want.append(show_rel(fs, l1, l2))
+        # candidates the code must REJECT (odd conductor prime among the reported primes): smooth values of the polynomial
+        oddc = [q for q in tr["cond"] if q != 2]
+        if oddc and items:
+            fbp = [q for q, _ in tr["fb"]]
+            nrej = 0
+            for x in range(0, 4000):
+                v = (pol["a"] * x + (pol["b"] if pol["type"] == 2 else 2 * pol["b"])) * x + pol["c"]
+                if v <= 0 or all(v % q for q in oddc):
+                    continue
+                w, facs = v, []
+                for q in fbp:
+                    if w % q == 0:
+                        facs.append(q)
+                        while w % q == 0:
+                            w //= q
+                if w != 1:
+                    continue
+                used.update(facs)
+                items.append(f"{x}:{'+'.join(map(str, facs))}:1:1")
+                want.append("skip")
+                nrej += 1
+                if nrej >= 4:
+                    break
         if not items:
             return None
         fbs = ",".join(f"{p}:{r}" for p, r in tr["fb"] if p in used) or "-"
@@ -2203,6 +2254,8 @@ def _klass(case, ans):
             base += "/SPARSE-no-structure"
     if op == "cg_poly" and len(a) > 4 and a[4] == "1":
         base += "/dbl"
+    if op == "cg_poly" and case.tag.startswith("nonfund"):
+        base += "/odd-conductor"
     if op == "cg_estimate_bits":
         return f"{op}/{dclass(D)}/{(-D).bit_length()}b{bad}"
     if op == "cg_estimate" and not bad:
